@@ -479,7 +479,13 @@ func (r *run) execSlice(fr *frame, st *State, x *ssa.Slice, reach string) Val {
 			hi = ln
 		}
 		r.oblige(fr.name, "slice-bounds", reach, fmt.Sprintf("(and (<= 0 %s) (<= %s %s) (<= %s %s))", lo, lo, hi, hi, ln), srcText(x), x.Pos())
-		return Val{Term: fmt.Sprintf("(str.substr %s %s (- %s %s))", base.Term, lo, hi, lo), Sort: "String", Type: x.Type()}
+		sub := r.share(fmt.Sprintf("(str.substr %s %s (- %s %s))", base.Term, lo, hi, lo), "String")
+		// character i of s[lo:hi] is character lo+i of s: ground instances for the first
+		// positions (a consequence of the string theory the solvers are slow to find)
+		for i := 0; i < 8; i++ {
+			r.assume(reach, fmt.Sprintf("(=> (< %d (- %s %s)) (= (str.at %s %d) (str.at %s (+ %s %d))))", i, hi, lo, sub, i, base.Term, lo, i))
+		}
+		return Val{Term: sub, Sort: "String", Type: x.Type()}
 	case *types.Slice:
 		m, arr, ln, cp := r.sliceParts(base)
 		if x.High != nil {
@@ -767,6 +773,11 @@ func (r *run) execConvert(fr *frame, st *State, x *ssa.Convert, reach string) Va
 			// []byte(s): a fresh slice with one element per byte, each the byte of s there
 			m := strings.TrimPrefix(ts, "Slice_")
 			r.assume("true", fmt.Sprintf("(and (= (len_%s %s) (str.len %s)) (<= (len_%s %s) (cap_%s %s)) (own_%s %s) (nn_%s %s))", m, res.Term, v.Term, m, res.Term, m, res.Term, m, res.Term, m, res.Term))
+			// element i is byte i of the string (strings are byte sequences in this encoding);
+			// ground instances for the first bytes spare the solver a quantifier
+			for i := 0; i < 8; i++ {
+				r.assume("true", fmt.Sprintf("(=> (< %d (str.len %s)) (= (select (arr_%s %s) %d) (str.to_code (str.at %s %d))))", i, v.Term, m, res.Term, i, v.Term, i))
+			}
 		}
 		return res
 	case strings.HasPrefix(fs, "Slice_") && ts == "String":
